@@ -8,9 +8,9 @@ C09 — tail calls are free and invisible.
    earlier iterations observe, as the same function evaluated without the optimisation."
 
 The model is `Model/Gen.lean` (generator) + `Model/VM.lean` (VM), following /repo with the
-fixes fc05fc7 (fresh function scope per iteration), C09-01 (tail flag cleared for
-initialisers, array elements, assert, assignment targets) and C09-02 (arity check in
-`PrepareCall`). Tail position is defined independently in `Spec/TailPos.lean`.
+fixes fc05fc7 (fresh function scope per iteration), 5554b40 (tail flag cleared for let
+initialisers, array elements, …) and c9a2ccf (a self call with the wrong number of operands
+is an ordinary call). Tail position is defined independently in `Spec/TailPos.lean`.
 
 Proved here, for programs of every size, every nesting of the contexts and every depth:
 
@@ -58,27 +58,51 @@ function's own name. -/
 def bodyCtx (f : String) (known : List (String × Nat)) : Ctx := ⟨true, 0, f, known⟩
 
 /-- (b) The tail sequence pops exactly the scopes open at that point: those open when the
-enclosing form `e` was entered (`k0`), those crossed inside it (`k`), and the function scope. -/
+enclosing form `e` was entered (`k0`), those crossed inside it (`k`), and the function scope.
+A self call in tail position is handled by the tail-call arm of `GenerateCallBySymbol` (under a
+context with `Tail` on and `scopes = k0 + k`, in some generator state `gs1`); that arm emits
+the tail sequence when the number of operands fits the function registered under the name at
+that point (`ArityOk`, fix c9a2ccf) and one ordinary call — which reports the arity error at
+run time — when it does not. -/
 theorem tail_sequence_layout {isFn : Nat → Bool} {f : String} {kn : List (String × Nat)} {e : Expr}
     {args : List Expr} {k0 k : Nat} {gs : GS} {r}
     (hpos : TailAt k e (.call (.sym f) args))
     (hc : compile isFn ⟨true, k0, f, kn⟩ e gs = .ok r) :
-    ∃ argcode, Seg r.1.1 (argcode ++ tailSeq f args.length (k0 + k)) := by
+    ∃ gs1 : GS,
+      (ArityOk ((kn.lookup f).bind fun t => gs1.fns[t]?) args.length = true →
+        ∃ argcode, Seg r.1.1 (argcode ++ tailSeq f args.length (k0 + k))) ∧
+      (ArityOk ((kn.lookup f).bind fun t => gs1.fns[t]?) args.length = false →
+        Seg r.1.1 [Instr.callExpr (.sym f) args]) := by
   obtain ⟨gs1, r1, h1, hseg⟩ := tailAt_emits hpos hc
-  obtain ⟨argcode, hcode⟩ := self_call_tail h1
-  refine ⟨argcode, ?_⟩
-  rw [hcode] at hseg
-  simpa [tailSeq, List.append_assoc] using hseg
+  refine ⟨gs1, ?_, ?_⟩
+  · intro harity
+    obtain ⟨argcode, hcode⟩ := self_call_tail h1 harity
+    refine ⟨argcode, ?_⟩
+    rw [hcode] at hseg
+    simpa [tailSeq, List.append_assoc] using hseg
+  · intro harity
+    rw [self_call_wrong_arity h1 harity] at hseg
+    exact hseg
 
-/-- (a, converse) A self call in tail position of a function body is compiled to the tail
+/-- (a, converse) A self call in tail position of a function body, with a number of operands
+that fits the function (in whatever state the function table is), is compiled to the tail
 sequence, with `k+1` `RemoveScope` for `k` crossed scopes. -/
 theorem tail_position_gets_tail_sequence {isFn : Nat → Bool} {f : String} {kn : List (String × Nat)}
     {body : List Expr} {args : List Expr} {k : Nat} {gs : GS} {r}
     (hpos : TailAt k (.begin_ body) (.call (.sym f) args))
+    (harity : ∀ gs1 : GS, ArityOk ((kn.lookup f).bind fun t => gs1.fns[t]?) args.length = true)
     (hc : compileBegin isFn (bodyCtx f kn) body gs = .ok r) :
     ∃ argcode, Seg r.1.1 (argcode ++ tailSeq f args.length k) := by
-  have hc' : compile isFn ⟨true, 0, f, kn⟩ (.begin_ body) gs = .ok r := by simpa [compile, bodyCtx] using hc
-  simpa using tail_sequence_layout (k0 := 0) hpos hc'
+  have hne : body ≠ [] := by
+    intro h; subst h
+    cases hpos with
+    | step st _ => cases st with | beginLast hl => cases hl
+  have hc' : compile isFn ⟨true, 0, f, kn⟩ (.begin_ body) gs = .ok r := by
+    cases body with
+    | nil => exact absurd rfl hne
+    | cons x xs => simpa [compile, bodyCtx] using hc
+  obtain ⟨gs1, h1, _⟩ := tail_sequence_layout (k0 := 0) hpos hc'
+  simpa using h1 (harity gs1)
 
 /-- (a) The tail flag reaches tail positions only: a call (to the function itself or to
 anything else) reached through at least one non-tail step is compiled, as an occurrence of its
@@ -89,7 +113,13 @@ theorem tail_flag_only_in_tail_position {isFn : Nat → Bool} {f h : String} {kn
     (hc : compileBegin isFn (bodyCtx f kn) body gs = .ok r) :
     ∃ k' gs1 r1, compile isFn ⟨false, k', f, kn⟩ (.call (.sym h) args) gs1 = .ok r1 ∧
       r1.1.1 = [Instr.callExpr (.sym h) args] ∧ Seg r.1.1 r1.1.1 := by
-  have hc' : compile isFn ⟨true, 0, f, kn⟩ (.begin_ body) gs = .ok r := by simpa [compile, bodyCtx] using hc
+  have hc' : compile isFn ⟨true, 0, f, kn⟩ (.begin_ body) gs = .ok r := by
+    cases body with
+    | nil =>
+      cases hpos with
+      | nonTail st _ => cases st with | beginInner hm => cases hm
+      | tail st _ => cases st with | beginLast hl => cases hl
+    | cons x xs => simpa [compile, bodyCtx] using hc
   obtain ⟨k', gs1, r1, h1, hseg⟩ := nonTailAt_emits hpos hc'
   exact ⟨k', gs1, r1, h1, call_off h1, hseg⟩
 
@@ -98,11 +128,12 @@ decided by the path alone. -/
 theorem self_call_dichotomy {isFn : Nat → Bool} {f : String} {kn : List (String × Nat)}
     {body : List Expr} {args : List Expr} {gs : GS} {r}
     (hpos : Inline (.begin_ body) (.call (.sym f) args))
+    (harity : ∀ gs1 : GS, ArityOk ((kn.lookup f).bind fun t => gs1.fns[t]?) args.length = true)
     (hc : compileBegin isFn (bodyCtx f kn) body gs = .ok r) :
     (∃ k argcode, TailAt k (.begin_ body) (.call (.sym f) args) ∧ Seg r.1.1 (argcode ++ tailSeq f args.length k)) ∨
     (NonTailAt (.begin_ body) (.call (.sym f) args) ∧ Seg r.1.1 [Instr.callExpr (.sym f) args]) := by
   rcases inline_dichotomy hpos with ⟨k, hk⟩ | hn
-  · obtain ⟨argcode, h⟩ := tail_position_gets_tail_sequence hk hc
+  · obtain ⟨argcode, h⟩ := tail_position_gets_tail_sequence hk harity hc
     exact .inl ⟨k, argcode, hk, h⟩
   · obtain ⟨_, _, r1, _, h2, h3⟩ := tail_flag_only_in_tail_position hn hc
     exact .inr ⟨hn, h2 ▸ h3⟩
@@ -252,7 +283,7 @@ slots, `k = 0` extra scopes, the function scope above `L = [global]`, one return
 example : TailSite atTailCall "f" 1 0 1 0 1 [some 0] atTailCall.data where
   code := ⟨3, [.removeScope, .ret], ⟨rfl, rfl, [.addFuncScope 2, .popStackPutEnv "n", .envToStack "n"], [], rfl, rfl⟩⟩
   prep := fun n => by
-    have := exec_prepareCall_fixed n atTailCall "f" 1 0 2 (by decide) (by decide) rfl rfl
+    have := exec_prepareCall_fixed n atTailCall "f" 1 0 2 (by decide) (by decide) rfl
     simpa using this
   operands := rfl
   scopes := ⟨[some 1], rfl, rfl⟩
